@@ -223,21 +223,36 @@ theorem or_correct {a b : Nat} {ra rb : List Nat} (hm : 2 ≤ bitLen m)
   rw [and_correct hm ha hb hra hrb hla hlb, bin_add hm1 ha hb,
     bin_add hm1 (Nat.xor_lt_two_pow ha hb) (lt_of_le_of_lt Nat.and_le_left ha), xor_xor_and]
 
-/-- bit decomposition of prime-field elements (value level): the bits of `V mod 2^l` rebuild it -/
+/-- the argument of the bit decomposition is the canonical representative `x` itself -/
+theorem toBitsPrimeArg_eq (p : Nat) (sg : Bool) (x : Nat) (hx : x < p) : toBitsPrimeArg p sg x = (x : Int) := by
+  unfold toBitsPrimeArg Convert.toInt Convert.signed
+  cases sg
+  · simp
+  · simp only [if_true, true_and]
+    by_cases h : x > p / 2
+    · simp only [h, if_true]
+      have : ((x : Int) - (p : Int) < 0) := by omega
+      simp [this]
+    · simp only [h, if_false]
+      have : ¬ ((x : Int) < 0) := by omega
+      simp [this]
+
+/-- bit decomposition of prime-field elements (value level): the bits of `U mod 2^l` rebuild it, `U` the unsigned
+representative (also for signed fields) -/
 theorem toBitsPrime_correct (p : Nat) (sg : Bool) (x l : Nat) :
-    bitsToNat (toBitsPrime p sg x l) = ((Convert.toInt p sg x) % ((2 ^ l : Nat) : Int)).toNat ∧
+    bitsToNat (toBitsPrime p sg x l) = ((toBitsPrimeArg p sg x) % ((2 ^ l : Nat) : Int)).toNat ∧
     (toBitsPrime p sg x l).length = l ∧ ∀ b ∈ toBitsPrime p sg x l, b < 2 := by
   unfold toBitsPrime
-  have hlt : ((Convert.toInt p sg x) % ((2 ^ l : Nat) : Int)).toNat < 2 ^ l := by
+  show bitsToNat ((List.range l).map (fun i => (((toBitsPrimeArg p sg x) % ((2 ^ l : Nat) : Int)).toNat >>> i) % 2)) = _ ∧ _
+  have hlt : ((toBitsPrimeArg p sg x) % ((2 ^ l : Nat) : Int)).toNat < 2 ^ l := by
     have h2 : (0 : Int) < ((2 ^ l : Nat) : Int) := by positivity
-    have := Int.emod_lt_of_pos (Convert.toInt p sg x) h2
-    have := Int.emod_nonneg (Convert.toInt p sg x) (ne_of_gt h2)
+    have := Int.emod_lt_of_pos (toBitsPrimeArg p sg x) h2
+    have := Int.emod_nonneg (toBitsPrimeArg p sg x) (ne_of_gt h2)
     omega
   refine ⟨?_, by simp, ?_⟩
-  · have : (List.range l).map (fun i => (((Convert.toInt p sg x) % ((2 ^ l : Nat) : Int)).toNat >>> i) % 2)
-        = (List.range l).map (fun i => ((((Convert.toInt p sg x) % ((2 ^ l : Nat) : Int)).toNat).testBit i).toNat) := by
+  · have : (List.range l).map (fun i => (((toBitsPrimeArg p sg x) % ((2 ^ l : Nat) : Int)).toNat >>> i) % 2)
+        = (List.range l).map (fun i => ((((toBitsPrimeArg p sg x) % ((2 ^ l : Nat) : Int)).toNat).testBit i).toNat) := by
       apply List.map_congr_left; intro i _; exact shift_mod_two _ _
-    simp only []
     rw [this, bitsToNat_bits _ _ hlt]
   · intro b hb
     simp only [List.mem_map] at hb
